@@ -16,6 +16,31 @@ fn squash(s: &str) -> String {
     s.chars().filter(|c| !c.is_whitespace()).collect()
 }
 
+/// `match e { Ok(x) => x, Err(err) => return Err(err) }` is `e?` written out: the squashed `e`
+fn try_as_match(e: &Expr) -> Option<String> {
+    let Expr::Match(m) = e else { return None };
+    if m.arms.len() != 2 {
+        return None;
+    }
+    let mut ok = false;
+    let mut err = false;
+    for a in &m.arms {
+        let p = squash(&toks(&a.pat));
+        let b = squash(&toks(&*a.body));
+        let b = b.trim_end_matches(',');
+        if let Some(x) = p.strip_prefix("Ok(").and_then(|x| x.strip_suffix(')')) {
+            ok = b == x && a.guard.is_none();
+        } else if let Some(x) = p.strip_prefix("Err(").and_then(|x| x.strip_suffix(')')) {
+            err = a.guard.is_none() && (b == format!("returnErr({x})") || b == format!("returnErr({x}.into())") || b == format!("returnErr(From::from({x}))"));
+        }
+    }
+    if ok && err {
+        Some(squash(&toks(&*m.expr)))
+    } else {
+        None
+    }
+}
+
 struct V {
     out: Vec<String>,
     /// the variable holding the deserialised list / map
@@ -140,7 +165,10 @@ impl<'ast> Visit<'ast> for V {
             // `let vector: Vec<String> = Vec::deserialize(deserializer)?;`
             if let Pat::Ident(pi) = &*pt.pat {
                 let ty = squash(&toks(&*pt.ty));
-                let t = squash(&toks(&*init.expr));
+                let t = match try_as_match(&init.expr) {
+                    Some(inner) => format!("{inner}?"),
+                    None => squash(&toks(&*init.expr)),
+                };
                 if t.ends_with("::deserialize(deserializer)?") {
                     self.input = pi.ident.to_string();
                     match ty.as_str() {
